@@ -31,6 +31,26 @@ pub fn explore(ex: &Ex) {
         }
     });
 
+    // every registered header label (and its neighbours) x every value shape: nothing but the
+    // typed labels 1..7 is interpreted, whatever the registry says about the parameter
+    {
+        use crate::refiana::Reg;
+        let labels = super::registry_labels(&[Reg::HeaderParameter, Reg::HeaderAlgorithmParameter]);
+        let kinds = super::kinds_plus();
+        ex.bound("c08.registry", "labels_x_kinds", json!([labels.len(), kinds.len()]));
+        par_partitions(ex.rep, labels, |lab, l| {
+            for k in &kinds {
+                for m in [gen::map(vec![(lab.clone(), k.clone())]), gen::map(vec![(gen::u(1), gen::i(-7)), (lab.clone(), k.clone())]), gen::map(vec![(lab.clone(), k.clone()), (gen::t("z"), gen::u(0))])] {
+                    let bytes = m.det();
+                    l.state(1);
+                    for (_n, ty, b) in header_carriers(&bytes, false) {
+                        ex.decode(l, "c08.registry", ty, Entry::Slice, &b);
+                    }
+                    ex.decode(l, "c08.registry", Ty::Protected, Entry::Bstr, &super::wrap_bstr(&bytes));
+                }
+            }
+        });
+    }
     // wide maps (size thresholds): many extras around all typed fields, one fault at three positions
     {
         use gen::{b, i, t, u};
